@@ -1,13 +1,15 @@
 #!/usr/bin/env python3
 """Source-level tie for C05: the code that builds and sends the ASGI response messages of the plain response classes.
 
-Five functions, each re-read with `ast` from the source as it is NOW and emitted as a Gallina definition:
+Six functions, each re-read with `ast` from the source as it is NOW and emitted as a Gallina definition:
   send_http_start, send_http_body      baize/asgi/helper.py       (class Fn, described below)
   BaseResponse.list_headers            baize/responses.py         (class ListHeadersFn: a pure function, see its docstring)
   Response.__call__                    baize/asgi/responses.py    (class CallFn, see its docstring: it applies the three above)
   SmallResponse.__call__               baize/asgi/responses.py    (class CallFn with the larger subset: conditions on the truth
                                        value of a str / bytes, "k" in self.headers, s.startswith("lit"), str(len(b)), +, +=,
                                        the result of the abstract coroutine render as an argument)
+  Response.__call__ (WSGI)             baize/wsgi/responses.py    (class WsgiCallFn: a pure function that gives the calls of
+                                       start_response and the items of the iterable returned; StatusStringMapping: an argument)
 What the translated code uses of other classes is an argument of the generated function (MutableHeaders.__setitem__ /
 __contains__, str of an int, the Latin-1 codec, bytes(cookie) / str(cookie), the result of render); the theorems of
 C05/Translated.v quantify over it or instantiate it with the model's own function (hset', hmem, decn of Resp/Model.v and
@@ -77,7 +79,9 @@ FUNCS = [
     ("BaseResponse.list_headers", "py_list_headers"),
     ("Response.__call__", "py_Response_call"),
     ("SmallResponse.__call__", "py_SmallResponse_call"),
+    ("wsgi.Response.__call__", "py_wsgi_Response_call"),
 ]
+FILE_WSGI = "baize/wsgi/responses.py"
 FILE_BASE = "baize/responses.py"
 BASE_CLS = "BaseResponse"
 HELPERS = ("send_http_start", "send_http_body")
@@ -170,7 +174,8 @@ class Ctx:
             self.cache[pyname] = "in progress"
             try:
                 f = (CallFn(self, pyname) if pyname in ("Response.__call__", "SmallResponse.__call__") else
-                     ListHeadersFn(self, pyname) if pyname == "BaseResponse.list_headers" else Fn(self, pyname, self.fdef(pyname)))
+                     ListHeadersFn(self, pyname) if pyname == "BaseResponse.list_headers" else
+                     WsgiCallFn(self, pyname) if pyname == "wsgi.Response.__call__" else Fn(self, pyname, self.fdef(pyname)))
                 f.translate()
                 self.cache[pyname] = f
             except Unsupported as e:
@@ -916,6 +921,143 @@ class ListHeadersFn:
 
     def closure(self):
         return [self.pyname]
+
+
+
+class WsgiCallFn:
+    """Response.__call__(self, environ, start_response) of baize/wsgi/responses.py (a plain function, not a generator): a
+    pure function of the object that gives (the calls of start_response, in order: (status line, header list); the items of
+    the iterable it returns).
+
+        self.headers["k"] = "v"                     let v_self_headers := headers_setitem (lit "k") (lit "v") v_self_headers in ...
+        start_response(a, b)                        let w_calls := w_calls ++ [(a, b)] in ...      (its result is not used)
+        StatusStringMapping[self.status_code]       status_string v_self_status_code     (the module's table: an argument)
+        self.list_headers(as_bytes=False)           py_list_headers encode_latin1 cookie_bytes cookie_str false v_self_headers v_self_cookies
+        x = e                                       let v_x := e in ...
+        return (b"..", ...) / [b"..", ...]          (w_calls, [lit ".."; ...])"""
+    FILE = FILE_WSGI
+
+    def __init__(self, ctx, pyname):
+        self.ctx, self.pyname = ctx, pyname
+        self.coq = COQ_NAME[pyname]
+        self.calls = []
+        self.src = open(os.path.join(ctx.repo, FILE_WSGI), encoding="utf-8").read()
+        self.tree = ast.parse(self.src)
+        self.fdef = self.find()
+
+    def find(self):
+        t = self.tree
+        bound = bound_names(t)
+        imp = [a for st in t.body if isinstance(st, ast.ImportFrom) and st.level == 0 and st.module == "baize.responses"
+               for a in st.names if a.name == BASE_CLS and a.asname is None]
+        if len(imp) != 1 or bound.get(BASE_CLS) != 1:
+            raise Unsupported(t, "%s is not imported exactly once from baize.responses, or is rebound" % BASE_CLS)
+        tab = [st for st in t.body if isinstance(st, ast.Assign) and len(st.targets) == 1 and isinstance(st.targets[0], ast.Name)
+               and st.targets[0].id == "StatusStringMapping"]
+        if len(tab) != 1 or bound.get("StatusStringMapping") != 1:
+            raise Unsupported(t, "StatusStringMapping is not assigned exactly once, at module level")
+        for n in ast.walk(t):
+            if isinstance(n, ast.Attribute) and not isinstance(n.ctx, ast.Load) and isinstance(n.value, ast.Name) and n.value.id == RESP_CLS:
+                raise Unsupported(n, "an attribute of %s is assigned outside its class body" % RESP_CLS)
+            if isinstance(n, ast.Subscript) and not isinstance(n.ctx, ast.Load) and isinstance(n.value, ast.Name) and n.value.id == "StatusStringMapping":
+                raise Unsupported(n, "an entry of StatusStringMapping is assigned")
+        cls = [n for n in t.body if isinstance(n, ast.ClassDef) and n.name == RESP_CLS]
+        if len(cls) != 1 or bound.get(RESP_CLS) != 1 or cls[0].decorator_list or cls[0].keywords or [ast.unparse(b) for b in cls[0].bases] != ["BaseResponse"]:
+            raise Unsupported(t, "class %s(BaseResponse) is not defined exactly once, plainly" % RESP_CLS)
+        body = [st for st in cls[0].body if not is_doc(st)]
+        if len(body) != 1 or not isinstance(body[0], ast.FunctionDef) or body[0].name != "__call__":
+            raise Unsupported(cls[0], "the body of %s is not just the plain method __call__" % RESP_CLS)
+        f = body[0]
+        a = f.args
+        if f.decorator_list or a.vararg or a.kwarg or a.posonlyargs or a.kwonlyargs or a.defaults or \
+                [p.arg for p in a.args] != ["self", "environ", "start_response"] or \
+                [ast.unparse(p.annotation) if p.annotation else None for p in a.args] != [None, "Environ", "StartResponse"]:
+            raise Unsupported(f, "__call__ is not (self, environ: Environ, start_response: StartResponse)")
+        for n in ast.walk(f):
+            if isinstance(n, (ast.Yield, ast.YieldFrom, ast.Global, ast.Nonlocal, ast.Lambda, ast.FunctionDef, ast.AsyncFunctionDef,
+                              ast.ClassDef, ast.NamedExpr, ast.Try, ast.With, ast.AsyncWith, ast.For, ast.AsyncFor, ast.While, ast.If,
+                              ast.Delete, ast.ListComp, ast.SetComp, ast.DictComp, ast.GeneratorExp, ast.Await, ast.AugAssign)) and n is not f:
+                raise Unsupported(n, "not in the subset")
+            if isinstance(n, ast.Name) and n.id in ("self", "environ", "start_response", "StatusStringMapping") and not isinstance(n.ctx, ast.Load):
+                raise Unsupported(n, "a parameter is rebound")
+        return f
+
+    def expr(self, e, env):
+        if isinstance(e, ast.Constant) and isinstance(e.value, str):
+            return lit(e.value, e), "str"
+        if isinstance(e, ast.Constant) and isinstance(e.value, bytes):
+            return lit(e.value.decode("latin-1"), e), "bytes"
+        if isinstance(e, ast.Name) and e.id in env:
+            return "v_" + e.id, env[e.id]
+        if isinstance(e, ast.Attribute) and isinstance(e.ctx, ast.Load) and ast.unparse(e) == "self.status_code":
+            return "v_self_status_code", "int"
+        if isinstance(e, ast.Subscript) and isinstance(e.value, ast.Name) and e.value.id == "StatusStringMapping" and "StatusStringMapping" not in env:
+            t, ty = self.expr(e.slice, env)
+            if ty == "int":
+                return "(status_string %s)" % t, "str"
+        if isinstance(e, ast.Call) and ast.unparse(e.func) == "self.list_headers":
+            if e.args or len(e.keywords) != 1 or e.keywords[0].arg != "as_bytes" or not (
+                    isinstance(e.keywords[0].value, ast.Constant) and e.keywords[0].value.value is False):
+                raise Unsupported(e, "list_headers is called other than with as_bytes=False")
+            callee = self.ctx.func("BaseResponse.list_headers")
+            if "BaseResponse.list_headers" not in self.calls:
+                self.calls.append("BaseResponse.list_headers")
+            return "(%s encode_latin1 cookie_bytes cookie_str false v_self_headers v_self_cookies)" % callee.coq, "headers"
+        raise Unsupported(e, "expression")
+
+    def block(self, stmts, env, ind):
+        stmts = [s for s in stmts if not is_doc(s) and not isinstance(s, ast.Pass)]
+        if not stmts:
+            raise Unsupported(self.fdef, "a path falls off the end (the server needs an iterable)")
+        s, rest = stmts[0], stmts[1:]
+        if isinstance(s, ast.Return):
+            if rest or not isinstance(s.value, (ast.Tuple, ast.List)):
+                raise Unsupported(s, "return of something that is not a tuple / list display, or dead code after it")
+            items = []
+            for x in s.value.elts:
+                t, ty = self.expr(x, env)
+                if ty != "bytes":
+                    raise Unsupported(x, "an item that is not bytes")
+                items.append(t)
+            return "%s(w_calls, [%s])" % (ind, "; ".join(items))
+        if isinstance(s, ast.Expr) and isinstance(s.value, ast.Call) and isinstance(s.value.func, ast.Name) \
+                and s.value.func.id == "start_response" and "start_response" not in env:
+            c = s.value
+            if len(c.args) != 2 or c.keywords or any(isinstance(x, ast.Starred) for x in c.args):
+                raise Unsupported(c, "start_response is called other than with two positional arguments")
+            (t1, ty1), (t2, ty2) = self.expr(c.args[0], env), self.expr(c.args[1], env)
+            if ty1 != "str" or ty2 != "headers":
+                raise Unsupported(c, "start_response(%s, %s)" % (ty1, ty2))
+            return "%slet w_calls := w_calls ++ [(%s, %s)] in\n" % (ind, t1, t2) + self.block(rest, env, ind)
+        if isinstance(s, ast.Assign) and len(s.targets) == 1:
+            tg = s.targets[0]
+            t, ty = self.expr(s.value, env)
+            if isinstance(tg, ast.Subscript) and ast.unparse(tg.value) == "self.headers":
+                k = tg.slice
+                if not (isinstance(k, ast.Constant) and isinstance(k.value, str)) or ty != "str":
+                    raise Unsupported(s, "self.headers[..] = .. other than <str literal> and a str")
+                return "%slet v_self_headers := headers_setitem %s %s v_self_headers in\n" % (ind, lit(k.value, k), t) + self.block(rest, env, ind)
+            if isinstance(tg, ast.Name) and tg.id not in RESERVED and not tg.id.startswith("self_") and \
+                    tg.id not in ("self", "environ", "start_response", "StatusStringMapping") and env.get(tg.id, ty) == ty:
+                env2 = dict(env)
+                env2[tg.id] = ty
+                return "%slet v_%s := %s in\n" % (ind, tg.id, t) + self.block(rest, env2, ind)
+        raise Unsupported(s, "statement")
+
+    def translate(self):
+        body = self.block(self.fdef.body, {}, "    ")
+        ps = (" {Cookie : Type} (headers_setitem : list N -> list N -> list header -> list header) (status_string : nat -> list N)"
+              " (encode_latin1 : list N -> bytes) (cookie_bytes : Cookie -> bytes) (cookie_str : Cookie -> list N)"
+              " (v_self_status_code : nat) (v_self_headers : list header) (v_self_cookies : list Cookie)")
+        self.text = ("Definition %s%s : list (list N * list header) * list bytes :=\n    let w_calls := @nil (list N * list header) in\n%s.\n"
+                     % (self.coq, ps, body))
+        seg = ast.get_source_segment(self.src, self.fdef) or ""
+        self.head = "(* %s :: %s, lines %d-%d\n%s\n*)\n" % (
+            FILE_WSGI, RESP_CLS + ".__call__", self.fdef.lineno, self.fdef.end_lineno,
+            "\n".join("   | " + l for l in P.comment_safe(seg).splitlines()))
+
+    def closure(self):
+        return [c for c in ("BaseResponse.list_headers",) if c in self.calls] + [self.pyname]
 
 
 def translate_all(repo):
